@@ -22,6 +22,7 @@ import common
 TRACE: list = []          # events of the current call
 FAULT = [None]            # (kind, field, idx) of the callback that must raise, or None
 SELF = [None]             # the instance under construction / operated on
+SELF_CLASS = [None]       # if set: every instance of exactly this class canonicalises to "self"
 FIELD_NAMES = ["x", "y", "z", "_p", "a_b", "w"]
 UNSET = object()
 
@@ -35,6 +36,8 @@ def _canon(v):
     if v is None:
         return "None"
     if SELF[0] is not None and v is SELF[0]:
+        return "self"
+    if SELF_CLASS[0] is not None and type(v) is SELF_CLASS[0]:
         return "self"
     if isinstance(v, attr.Attribute):
         return "attr." + v.name
@@ -423,7 +426,7 @@ def exc_enum(e):
     k = common.exc_kind(e)
     if k.startswith("user:"):
         return "user"
-    return k if k in ("typeError", "attributeError", "frozenInstance", "valueError") else "other"
+    return k if k in ("typeError", "attributeError", "frozenInstance", "valueError", "notFound") else "other"
 
 
 def construct(hspec, call, fault=None, validators_enabled=True):
